@@ -17,6 +17,7 @@ Independent oracle (knows nothing of the model), per request:
   P4 get_description() of every ChangeContents, applied as a unified diff to the file as it was, gives the
      bytes that were written; the composite description is the documented concatenation;
   P5 an exception out of Project.do is a RopeError subclass and leaves the bytes of the tree as they were;
+  P7 a performed MoveResource landed at the announced destination (source gone, destination holds the same entries);
   P6 with resources=R every edited file is in R or is the file holding the selected name (rope edits that file
      for local names whatever R says; counted as an observation).
 Besides the one-request-per-fresh-project stream there are multi-step SESSIONS on one live project (nothing is
@@ -132,6 +133,12 @@ def gen_requests(rng, world, density):
             if rng.random() < max(density, 0.6):
                 reqs.append({"kind": "move_module", "resource": p, "offset": None, "dest": d})
         reqs.append({"kind": "module_to_package", "resource": p})
+    for f in folders:                                        # a package moved INTO another existing folder
+        for g in folders + [x for x in ("plain",) if ("proj/plain/readme.txt" in world["files"])]:
+            if g != f and "/" not in f and "/" not in g:
+                reqs.append({"kind": "move_module", "resource": f, "offset": None, "dest": g})
+                # hand-built MoveResource(folder, existing folder) as Resource.move builds it (exact=False)
+                reqs.append({"kind": "synthetic", "spec": ["CS", "mvdir", [["MV", f, g, True, "as-requested"]]]})
     for f in folders:                                        # packages as resources
         reqs.append({"kind": "rename_module", "resource": f, "offset": None, "new_name": rng.choice(["pk2", "../pk2", "a"])})
         reqs.append({"kind": "move_module", "resource": f, "offset": None, "dest": rng.choice(["", f])})
@@ -297,6 +304,21 @@ def judge(world, r):
         ig = [p for p in ch if is_ignored(p)]
         if ig:
             bad.append(("P3-ignored-touched", "%s changed ignored resources: %s" % (what, ", ".join(ig[:5]))))
+    # P7: every announced move landed where it was announced ("rename to"): the source is gone, the destination
+    # holds what the source held (kind; for folders the same relative entries)
+    if r.do_exc is None and (req["kind"] != "synthetic" or any(len(l) > 4 for l in L.leaves(r.spec) if l[0] == "MV")):
+        mvs = [l for l in L.leaves(r.spec) if l[0] == "MV"]
+        if len(mvs) == 1 and norm(mvs[0][1]) != norm(mvs[0][2]):
+            src = os.path.normpath(os.path.join(root, *mvs[0][1].split("/"))).replace(os.sep, "/")
+            dst = os.path.normpath(os.path.join(root, *mvs[0][2].split("/"))).replace(os.sep, "/")
+
+            def sub(snap, top):
+                return sorted((p[len(top):], v[0]) for p, v in snap.items() if p == top or p.startswith(top + "/"))
+            if sub(r.s2, src) and not dst.startswith(src + "/"):
+                bad.append(("P7-move-landed", "after the move the source %s still exists" % src))
+            elif sub(r.s2, dst) != sub(r.s1, src):
+                bad.append(("P7-move-landed", "the announced destination %s does not hold what %s held (the resource "
+                            "landed elsewhere)" % (dst, src)))
     # P5
     if r.do_exc is not None:
         if not r.do_exc["rope_error"]:
@@ -347,6 +369,149 @@ def valid_module_name(name):
     return name.isidentifier()
 
 
+def target_kind(text, off):
+    """what the identifier at `off` is, read off the text alone (independent of rope): the name of a def (plain
+    function / method / static / class method / property / nested), of a class, of a class attribute, a lambda
+    parameter, or any other name"""
+    import re
+    start = off
+    while start > 0 and (text[start - 1].isalnum() or text[start - 1] == "_"):
+        start -= 1
+    ls = text.rfind("\n", 0, start) + 1
+    line = text[ls:text.find("\n", start) if text.find("\n", start) >= 0 else len(text)]
+    before = text[ls:start]
+    indent = len(line) - len(line.lstrip())
+    if re.fullmatch(r"\s*def\s+", before):
+        prev = text[:ls].rstrip("\n").split("\n")[-1].strip() if ls else ""
+        if prev.startswith("@staticmethod"):
+            return "def-static"
+        if prev.startswith("@classmethod"):
+            return "def-classmethod"
+        if prev.startswith("@property"):
+            return "def-property"
+        if indent == 0:
+            return "def-function"
+        # method (directly in a class body) or nested function: the nearest less indented header decides
+        for ln in reversed(text[:ls].split("\n")):
+            if ln.strip() and len(ln) - len(ln.lstrip()) < indent:
+                return "def-method" if ln.lstrip().startswith("class ") else "def-nested"
+        return "def-nested"
+    if re.fullmatch(r"\s*class\s+", before):
+        return "class"
+    if "lambda" in before and ":" not in before.split("lambda")[-1]:
+        return "lambda-parameter"
+    if indent > 0 and re.fullmatch(r"\s*", before) and re.match(r"\s*\w+\s*=[^=]", line):
+        for ln in reversed(text[:ls].split("\n")):
+            if ln.strip() and len(ln) - len(ln.lstrip()) < indent:
+                return "class-attribute" if ln.lstrip().startswith("class ") else "assigned-name"
+    return "name"
+
+
+def name_shape(name):
+    import keyword as kw
+    if name is None:
+        return "no-name"
+    if name == "":
+        return "empty-name"
+    if kw.iskeyword(name):
+        return "keyword-name"
+    return "valid-name" if name.isidentifier() else "non-identifier-name"
+
+
+def request_shape(world, req):
+    """the structural shape of a request (read off the inputs alone), part of every crash signature"""
+    kind = req["kind"]
+    text = world["files"].get("proj/" + str(req.get("resource")), None)
+    parts = []
+    if text is not None:
+        if not text.strip():
+            parts.append("empty-module")
+        else:
+            try:
+                compile(text, "<m>", "exec")
+            except SyntaxError:
+                parts.append("unparsable-module")
+    if KIND_GROUP.get(kind) == "extract":
+        s0, e0 = req.get("start", 0), req.get("end", 0)
+        if text is None or degenerate_region(world, req):
+            parts.append("degenerate-region")
+        else:
+            kinds = [k for (a, b2, k) in L.regions(text) if a == s0 and b2 == e0]
+            parts.append("%s-region" % (kinds[0] if kinds else "arbitrary"))
+        parts.append(name_shape(req.get("new_name")))
+        if req.get("similar"):
+            parts.append("similar")
+    elif kind == "restructure":
+        pat = req.get("pattern", "")
+        try:
+            compile(pat.replace("${", "_").replace("}", "_"), "<p>", "eval")
+            ok = bool(pat.strip())
+        except SyntaxError:
+            ok = False
+        parts.append("empty-pattern" if not pat.strip() else ("wellformed-pattern" if ok else "malformed-pattern"))
+    elif req.get("offset") is not None and text is not None:
+        off = req["offset"]
+        cat = L.offset_category(text, off) if off < len(text.rstrip("\n")) or off > len(text) else "eof"
+        if off >= len(text.rstrip("\n")):
+            cat = "past-end" if off > len(text) else "eof"
+        parts.append(cat)
+        if cat in ("identifier", "identifier-end"):
+            parts.append(target_kind(text, off))
+        if kind == "change_signature":
+            parts.append(req.get("changer", "?"))
+    else:
+        parts.append("no-offset")
+    return ",".join(parts)
+
+
+CHANGER_NAMES = set(L.CHANGERS)
+TARGET_KINDS = {"def-static", "def-classmethod", "def-property", "def-function", "def-method", "def-nested", "class",
+                "lambda-parameter", "class-attribute", "assigned-name", "name"}
+
+
+def shape_dims(shape):
+    """the comma-separated shape as {dimension: value}; absent dimensions are '-'"""
+    d = {"module": "-", "offset": "-", "target": "-", "changer": "-", "region": "-", "name": "-", "similar": "-",
+         "pattern": "-"}
+    for tok in shape.split(","):
+        if tok in ("empty-module", "unparsable-module"):
+            d["module"] = tok
+        elif tok.endswith("-region"):
+            d["region"] = tok
+        elif tok.endswith("-name"):
+            d["name"] = tok
+        elif tok == "similar":
+            d["similar"] = tok
+        elif tok.endswith("-pattern"):
+            d["pattern"] = tok
+        elif tok in CHANGER_NAMES:
+            d["changer"] = tok
+        elif tok in TARGET_KINDS:
+            d["target"] = tok
+        elif tok:
+            d["offset"] = tok
+    return d
+
+
+def shape_allowed(allowed, shape):
+    """`allowed`: {dimension: [values]} a finding was established for (product closure of the observed shapes)"""
+    d = shape_dims(shape)
+    return all(d[k] in allowed.get(k, ["-"]) for k in d)
+
+
+def load_expected_shapes():
+    """findings.d/C09.json: every crash finding lists the request shapes it was established for"""
+    from harness import common
+    out = {}
+    for f in common.load_findings().get("open", []):
+        if f.get("property") == PROPERTY and f.get("shapes") is not None:
+            out[f["signature"]] = f["shapes"]
+    return out
+
+
+EXPECTED_SHAPES = None
+LEARNING = bool(os.environ.get("C09_LEARN"))
+
 KIND_GROUP = {"extract_method": "extract", "extract_variable": "extract"}
 SITE_ALIAS = {"refactor/change_signature.py:change_argument_mapping": "refactor/change_signature.py:change_*",
               "refactor/change_signature.py:change_definition_info": "refactor/change_signature.py:change_*"}
@@ -373,6 +538,25 @@ def structural_class(world, r, check):
     req = r.req
     kind = req["kind"]
     if check == "P2-crash":
+        base = crash_base_class(world, r)
+        global EXPECTED_SHAPES
+        if EXPECTED_SHAPES is None:
+            EXPECTED_SHAPES = load_expected_shapes()
+        allowed = EXPECTED_SHAPES.get(base)
+        shape = request_shape(world, req)
+        if "change_signature.py" not in base:
+            shape = ",".join(t for t in shape.split(",") if t not in CHANGER_NAMES)
+        r.crash_shape = (base, shape)
+        if allowed is not None and not shape_allowed(allowed, shape) and not LEARNING:
+            return base + " [on a request shape it is not known for: %s]" % shape
+        return base
+    return structural_class_rest(world, r, check)
+
+
+def crash_base_class(world, r):
+    req = r.req
+    kind = req["kind"]
+    if True:
         site = (r.exc or {}).get("site") or "?"
         cls = (r.exc or {}).get("cls") or "?"
         site = SITE_ALIAS.get(site, site)
@@ -380,8 +564,14 @@ def structural_class(world, r, check):
             return ("crash: IndexError in extract on a degenerate region (empty or blank, touching the end of the "
                     "source, or in an empty or unparsable module)")
         if site.startswith("base/"):
-            return "crash: %s at %s (%s offset)" % (cls, site, req_offset_category(world, req))
+            return "crash: %s at %s" % (cls, site)     # shared front-end: the offset category is part of the shape
         return "crash: %s at %s in %s" % (cls, site, KIND_GROUP.get(kind, kind))
+    return "?"
+
+
+def structural_class_rest(world, r, check):
+    req = r.req
+    kind = req["kind"]
     if check == "P2-hang":
         return "hang: %s does not return%s" % (kind, " (docs=True)" if req.get("docs") else "")
     spec = getattr(r, "spec", None)
@@ -468,11 +658,30 @@ def real_rel(base, p):
     return os.path.relpath(os.path.normpath(str(p)), os.path.realpath(base)).replace(os.sep, "/")
 
 
-def g_events(I, base, raw):
+def link_table(base, snap):
+    """[(link path, target path)] relative to base, for the symbolic links of a snapshot"""
+    out = []
+    for p, v in sorted(snap.items()):
+        if v[0] == "l":
+            t = v[1].decode()
+            full = t if os.path.isabs(t) else os.path.join(os.path.realpath(base), os.path.dirname(p), t)
+            out.append((p, os.path.relpath(os.path.normpath(full), os.path.realpath(base)).replace(os.sep, "/")))
+    return out
+
+
+def follow_links(links, rel):
+    for l, t in links:
+        if rel == l or rel.startswith(l + "/"):
+            return t + rel[len(l):]
+    return rel
+
+
+def g_events(I, base, raw, links=()):
     out = []
     for e in L.primitive_events(raw):
         if e[0] == "write":
-            out.append("(EvWrite %s)" % g_path(I, real_rel(base, e[1])))
+            # open(p, "wb") follows a symbolic link: the model's event names the file really written
+            out.append("(EvWrite %s)" % g_path(I, follow_links(links, real_rel(base, e[1]))))
         elif e[0] == "create":
             out.append("(EvCreate %s %s)" % (g_bool(e[1]), g_path(I, real_rel(base, e[2]))))
         elif e[0] == "remove":
@@ -488,10 +697,12 @@ def representable(r):
     links = {p: v for p, v in r.s1.items() if v[0] == "l"}
     root = getattr(r, "root", "proj")
     for l in L.leaves(r.spec):
+        if l[0] == "CC":
+            continue                      # an edit THROUGH a link is modelled (Footprint.follow)
         for q in ([l[1], l[2]] if l[0] == "MV" else [l[1]]):
             rel = os.path.normpath(os.path.join(root, *q.split("/"))).replace(os.sep, "/")
             if any(rel == k or rel.startswith(k + "/") for k in links):
-                return False              # a change acting on / through a symbolic link: outside the model
+                return False              # moving / creating / removing a link itself: outside the model
     for s in (r.s1, r.s2, r.s3):
         for p, v in s.items():
             if v[0] not in ("d", "f", "l"):
@@ -503,16 +714,18 @@ def representable(r):
 
 def g_case(I, base, r):
     stp = getattr(r, "stop", None)
-    return ("{| c_root := %s; c_tree := %s; c_change := %s; c_stp := %s; o_announced := %s; o_compute_writes := %s; "
+    links = link_table(base, r.s1)
+    g_links = g_list([g_pair(g_path(I, l), g_path(I, t)) for l, t in links])
+    return ("{| c_root := %s; c_tree := %s; c_change := %s; c_links := %s; c_stp := %s; o_announced := %s; o_compute_writes := %s; "
             "o_raised := %s; o_cls := %s; o_trace := %s; o_tree := %s; o_undone := %s; o_uraised := %s; "
             "o_ucls := %s; o_utrace := %s; o_utree := %s |}" % (
-                g_path(I, getattr(r, "root", "proj")), g_tree(I, r.s1), g_change(I, r.spec),
+                g_path(I, getattr(r, "root", "proj")), g_tree(I, r.s1), g_change(I, r.spec), g_links,
                 "None" if stp is None else "(Some %s)" % g_nat(stp),
                 g_list([g_path(I, a) for a in r.announced]), g_nat(min(len(r.compute_raw), 4000)),
                 g_bool(r.do_exc is not None), g_N(getattr(r, "do_code", 0) if r.do_exc is not None else 0),
-                g_events(I, base, r.do_raw), g_tree(I, r.s2), g_bool(r.undone), g_bool(r.undo_exc is not None),
+                g_events(I, base, r.do_raw, links), g_tree(I, r.s2), g_bool(r.undone), g_bool(r.undo_exc is not None),
                 g_N(getattr(r, "undo_code", 0) if r.undo_exc is not None else 0),
-                g_events(I, base, r.undo_raw), g_tree(I, r.s3)))
+                g_events(I, base, r.undo_raw, links), g_tree(I, r.s3)))
 
 
 MISMATCH_BITS = {1: "raised flag / exception class of Project.do", 2: "tree after Project.do",
@@ -529,7 +742,7 @@ def evaluate(ctx, terms, shard=250):
     bodies = []
     for s in range(0, len(terms), shard):
         body = HEADER + "Definition cases : list case := %s.\n" % g_list(terms[s:s + shard]).replace("; {|", ";\n {|")
-        body += "Eval vm_compute in (report cases).\n"
+        body += "Eval vm_compute in (report cases).\nEval vm_compute in (landed cases).\n"
         bodies.append(body)
     if not bodies:
         return []
@@ -538,9 +751,10 @@ def evaluate(ctx, terms, shard=250):
     for si, out in enumerate(outs):
         nums = ctx.parse_nums(out)
         n_here = len(terms[si * shard:(si + 1) * shard])
-        if len(nums) != 1 or len(nums[0]) != n_here:
+        if len(nums) != 2 or len(nums[0]) != n_here or len(nums[1]) != n_here:
             raise RuntimeError("unexpected coqc output for shard %d: %s" % (si, out[:500]))
-        words.extend(nums[0])
+        # bit 2^20: C09_move_lands_at_destination holds on the observed trees
+        words.extend(w + (1 << 20) * l for w, l in zip(nums[0], nums[1]))
     return words
 
 
@@ -846,6 +1060,8 @@ def run(ctx):
     I = Interner()
     n_req = 0
     crash_groups = {}
+    crash_shapes = {}
+
     def handle_record(world, req, r, base, mk_replay, tag=""):
         nontrivial = r.outcome == "changes" and r.performed and bool(L.leaves(r.spec))
         ctx.case((sorted(world["files"].items()), sorted(req.items(), key=str), r.root, tag), nontrivial=nontrivial)
@@ -882,6 +1098,8 @@ def run(ctx):
             ctx.count("oracle_failed:%s" % check)
             if check == "P2-crash":
                 crash_groups[cls] = crash_groups.get(cls, 0) + 1
+                if getattr(r, "crash_shape", None):
+                    crash_shapes.setdefault(r.crash_shape[0], set()).add(r.crash_shape[1])
             ctx.violation(mk_replay(r, check, text, cls),
                           "C09 %s%s: %s [%s %s]" % (tag, check, text, req["kind"], {k: v for k, v in req.items() if k != "kind"}))
 
@@ -942,6 +1160,7 @@ def run(ctx):
     ctx.extra["session_steps"] = n_session_steps
     ctx.extra["requests_served"] = n_req
     ctx.extra["crash_groups_seen"] = crash_groups
+    ctx.extra["crash_shapes_seen"] = {k: sorted(v) for k, v in crash_shapes.items()}
 
     # ---- correspondence inside Coq
     words = evaluate(ctx, terms)
@@ -957,7 +1176,10 @@ def run(ctx):
         mism = w & 127
         if mism:
             ctx.count("model_mismatch")
-            if cls is not None and cls in known_sigs and not dom:
+            # a known finding outside the theorems' domain may explain a difference in the exception Project.do /
+            # History.undo ends with (rope raises AttributeError from is_ignored AFTER an out-of-project write); the
+            # model must still predict the tree, the trace and the announced resources exactly
+            if cls is not None and cls in known_sigs and not dom and not (mism & (2 | 4 | 8 | 64)):
                 ctx.count("model_mismatch_outside_domain_on_known_finding")
             else:
                 ctx.violation({"kind": "mismatch", "world": world, "req": req, "differs": describe_bits(mism),
@@ -977,6 +1199,12 @@ def run(ctx):
                     ctx.violation({"kind": "mismatch", "world": world, "req": req, "oracle_failed": checks,
                                    "broken": "observation contradicts %s although model and code agree on the case" % thm},
                                   "C09: observation contradicts %s" % thm, no_input=not checks)
+            if not (w & 8192) and not (w & (1 << 20)) and not (
+                    req["kind"] == "synthetic" and not any(len(l) > 4 for l in L.leaves(req.get("spec", ["CS", "", []])))):
+                ctx.violation({"kind": "mismatch", "world": world, "req": req, "oracle_failed": checks,
+                               "broken": "observation contradicts C09_move_lands_at_destination: a performed MoveResource "
+                                         "did not land at the destination it announces"},
+                              "C09: a performed move did not land at its announced destination", no_input=not checks)
             if not (w & 8192) and not (w & 16384):
                 ctx.violation({"kind": "mismatch", "world": world, "req": req, "oracle_failed": checks,
                                "broken": "observation contradicts C09_trace_exact"},
